@@ -329,6 +329,16 @@ func (w *formWalker) condOf(e ast.Expr) (pos, neg []fCond) {
 
 // fork runs `branch` on a copy of every unfinished path, extended by the conditions cs; finished paths are dropped
 // (the caller keeps them).
+func stripParens(e ast.Expr) ast.Expr {
+	for {
+		p, ok := e.(*ast.ParenExpr)
+		if !ok {
+			return e
+		}
+		e = p.X
+	}
+}
+
 func fork(p *fPath, cs []fCond) *fPath {
 	q := p.clone()
 	q.conds = append(q.conds, cs...)
@@ -429,6 +439,20 @@ func (w *formWalker) walk(stmts []ast.Stmt, live []*fPath) []*fPath {
 			}
 			if !w.containsPrintOrReturn(t) {
 				w.flat(t, live, nil)
+				continue
+			}
+			// `if A || B {S} else {E}` ≡ `if A {S} else if B {S} else {E}` ; `if A && B {S} else {E}` ≡
+			// `if A { if B {S} else {E} } else {E}` – so that every path carries atomic conditions
+			if b, ok := stripParens(t.Cond).(*ast.BinaryExpr); ok && (b.Op == token.LOR || b.Op == token.LAND) {
+				var rewritten *ast.IfStmt
+				if b.Op == token.LOR {
+					inner := &ast.IfStmt{If: t.If, Cond: b.Y, Body: t.Body, Else: t.Else}
+					rewritten = &ast.IfStmt{If: t.If, Cond: b.X, Body: t.Body, Else: inner}
+				} else {
+					inner := &ast.IfStmt{If: t.If, Cond: b.Y, Body: t.Body, Else: t.Else}
+					rewritten = &ast.IfStmt{If: t.If, Cond: b.X, Body: &ast.BlockStmt{List: []ast.Stmt{inner}}, Else: t.Else}
+				}
+				live = w.walk([]ast.Stmt{rewritten}, live)
 				continue
 			}
 			pos, neg := w.condOf(t.Cond)
@@ -603,6 +627,7 @@ type formsGrammar struct {
 	zeroMemo map[string]string
 	nullMemo map[string]int // 0 unknown, 1 in progress, 2 no, 3 yes
 	consts   *constEnv
+	pkg      *sqlPkg
 }
 
 func joinZero(a, b string) string {
@@ -669,10 +694,39 @@ func (fg *formsGrammar) zeroOf(e ast.Expr, alt yAlt) string {
 		case name != "" && len(t.Args) == 1 && (fg.isTypeName(name) || name == "string"):
 			return fg.zeroOf(t.Args[0], alt) // conversion
 		case strings.HasPrefix(name, "New") && len(t.Args) >= 1:
+			if fg.ctorNonNil(name) {
+				return "nonzero"
+			}
 			return "maybe"
 		}
 	}
 	return "maybe"
+}
+
+// ctorNonNil: a constructor of the package whose every return statement returns `&T{…}` (NewIntVal, NewStrVal …)
+func (fg *formsGrammar) ctorNonNil(name string) bool {
+	fd := fg.pkg.funcs[name]
+	if fd == nil || fd.Body == nil {
+		return false
+	}
+	n, all := 0, true
+	ast.Inspect(fd.Body, func(x ast.Node) bool {
+		if _, isLit := x.(*ast.FuncLit); isLit {
+			return false
+		}
+		if rs, ok := x.(*ast.ReturnStmt); ok {
+			n++
+			good := false
+			if len(rs.Results) == 1 {
+				if u, ok := rs.Results[0].(*ast.UnaryExpr); ok && u.Op == token.AND {
+					_, good = u.X.(*ast.CompositeLit)
+				}
+			}
+			all = all && good
+		}
+		return true
+	})
+	return n > 0 && all
 }
 
 var sqlTypeNames map[string]bool
@@ -999,7 +1053,7 @@ func genSqlForms() {
 	for t := range p.types {
 		sqlTypeNames[t] = true
 	}
-	fg := &formsGrammar{g: g, blocks: map[string][]*ast.BlockStmt{}, zeroMemo: map[string]string{}, nullMemo: map[string]int{}, consts: newConstEnv(filepath.Join(sqlDir, "ast.go"))}
+	fg := &formsGrammar{g: g, blocks: map[string][]*ast.BlockStmt{}, zeroMemo: map[string]string{}, nullMemo: map[string]int{}, consts: newConstEnv(filepath.Join(sqlDir, "ast.go")), pkg: p}
 	for _, r := range g.order {
 		for _, a := range g.rules[r] {
 			fg.blocks[r] = append(fg.blocks[r], parseAction(a.action))
@@ -1068,6 +1122,49 @@ func genSqlForms() {
 				}
 				return true
 			})
+			// `$$ = &Kind{…}` followed by `$$.F = v`: further fields of that literal
+			{
+				var lit *ast.CompositeLit
+				ast.Inspect(blk, func(n ast.Node) bool {
+					as, ok := n.(*ast.AssignStmt)
+					if !ok || len(as.Lhs) != 1 || len(as.Rhs) != 1 {
+						return true
+					}
+					if id, ok := as.Lhs[0].(*ast.Ident); ok && id.Name == "yyVAL" {
+						e := as.Rhs[0]
+						if u, ok := e.(*ast.UnaryExpr); ok && u.Op == token.AND {
+							e = u.X
+						}
+						lit, _ = e.(*ast.CompositeLit)
+						return true
+					}
+					sel, ok := as.Lhs[0].(*ast.SelectorExpr)
+					if !ok || lit == nil {
+						return true
+					}
+					if id, ok := sel.X.(*ast.Ident); !ok || id.Name != "yyVAL" {
+						return true
+					}
+					kid, ok := lit.Type.(*ast.Ident)
+					if !ok || !isKind[kid.Name] {
+						return true
+					}
+					// the production of this literal is the last one recorded for this alternative with that kind
+					for k := len(direct[r]) - 1; k >= 0; k-- {
+						q := &direct[r][k]
+						if q.alt == i+1 && q.kind == kid.Name {
+							q.fields = append(q.fields, gField{sel.Sel.Name, fg.zeroOf(as.Rhs[0], a), actionText(as.Rhs[0])})
+							for _, d := range dollarsIn(as.Rhs[0]) {
+								if d >= 1 && d <= len(q.syms) && q.syms[d-1].field == "" {
+									q.syms[d-1].field = sel.Sel.Name
+								}
+							}
+							break
+						}
+					}
+					return true
+				})
+			}
 			// local variables bound to `$n` / `$n.(*Kind)`
 			locals := map[string]int{}
 			localKind := map[string]string{}
@@ -1177,6 +1274,99 @@ func genSqlForms() {
 			prods = append(prods, q)
 		}
 	}
+	// a field assigned `$n.F` where the rule of `$n` builds a struct literal per alternative (decimal_length_opt:
+	// LengthScaleOption{} | {Length} | {Length, Scale}): one production per alternative of that rule, so that the
+	// correlation between the fields (no Scale without Length) is kept
+	{
+		selRe := regexp.MustCompile(`^\$(\d+)\.([A-Za-z_][A-Za-z0-9_]*)$`)
+		var expanded []gProd
+		for _, q := range prods {
+			splitOn := 0
+			for _, f := range q.fields {
+				if m := selRe.FindStringSubmatch(f.text); m != nil {
+					splitOn, _ = strconv.Atoi(m[1])
+					break
+				}
+			}
+			// positions refer to the alternative's own right-hand side: only for unspliced productions
+			alts := g.rules[q.rule]
+			if splitOn == 0 || q.alt > len(alts) || len(alts[q.alt-1].syms) != len(q.syms) || splitOn > len(q.syms) {
+				expanded = append(expanded, q)
+				continue
+			}
+			inner := q.syms[splitOn-1].sym
+			type variant struct {
+				vals map[string]string
+				syms []gSym
+			}
+			var vs []variant
+			ok := len(g.rules[inner]) > 0
+			for ai, ia := range g.rules[inner] {
+				blk := fg.blocks[inner][ai]
+				if blk == nil {
+					ok = false
+					break
+				}
+				var lit *ast.CompositeLit
+				ast.Inspect(blk, func(n ast.Node) bool {
+					if as, isAs := n.(*ast.AssignStmt); isAs && len(as.Lhs) == 1 && len(as.Rhs) == 1 {
+						if id, isId := as.Lhs[0].(*ast.Ident); isId && id.Name == "yyVAL" {
+							e := as.Rhs[0]
+							if u, isU := e.(*ast.UnaryExpr); isU && u.Op == token.AND {
+								e = u.X
+							}
+							lit, _ = e.(*ast.CompositeLit)
+						}
+					}
+					return true
+				})
+				if lit == nil {
+					ok = false
+					break
+				}
+				v := variant{vals: map[string]string{}}
+				for _, el := range lit.Elts {
+					kv, isKV := el.(*ast.KeyValueExpr)
+					if !isKV {
+						ok = false
+						break
+					}
+					v.vals[kv.Key.(*ast.Ident).Name] = fg.zeroOf(kv.Value, ia)
+				}
+				for _, sy := range ia.syms {
+					v.syms = append(v.syms, gSym{sy, "", fg.nullable(sy)})
+				}
+				vs = append(vs, v)
+			}
+			if !ok {
+				expanded = append(expanded, q)
+				continue
+			}
+			for _, v := range vs {
+				np := gProd{kind: q.kind, rule: q.rule, alt: q.alt, top: q.top}
+				for j, sy := range q.syms {
+					if j == splitOn-1 {
+						np.syms = append(np.syms, v.syms...)
+						continue
+					}
+					np.syms = append(np.syms, sy)
+				}
+				for _, f := range q.fields {
+					if m := selRe.FindStringSubmatch(f.text); m != nil && m[1] == strconv.Itoa(splitOn) {
+						z, has := v.vals[m[2]]
+						if !has {
+							z = "zero"
+						}
+						np.fields = append(np.fields, gField{f.name, z, f.text})
+						continue
+					}
+					np.fields = append(np.fields, f)
+				}
+				expanded = append(expanded, np)
+			}
+		}
+		prods = expanded
+	}
 	sort.SliceStable(prods, func(i, j int) bool {
 		ki, kj := indexOfStr(kinds, prods[i].kind), indexOfStr(kinds, prods[j].kind)
 		if ki != kj {
@@ -1248,7 +1438,7 @@ func genSqlForms() {
 					if !isLit[sy] || (a.action == "" && j == 0) { // no action: yacc's default `$$ = $1`
 						continue
 					}
-					if !regexp.MustCompile(`\$`+strconv.Itoa(j+1)+`\b`).MatchString(a.action) {
+					if !regexp.MustCompile(`\$` + strconv.Itoa(j+1) + `\b`).MatchString(a.action) {
 						urows = append(urows, fmt.Sprintf("(%q, %d, %q)", r, i+1, sy))
 					}
 				}
